@@ -379,17 +379,18 @@ def r7_block_validate(ck, cx):
     """the range guard of R2 is only as good as the block predicate behind context.validate(): it must accept
     exactly the ranges every cell of which exists (shared with C18 R1 / R3; only the validate constructs)"""
     ck.rule('R7', 'block validate() accepts a range iff every addressed cell exists (shared with C18 R1/R3)')
-    from .c18 import r1_sequential_validate, r3_sparse, r4_context_offset
+    from .c18 import r1_sequential_validate, r3_sparse, r4_context_offset, r7_reset_keeps_extent
     sub = type(ck)(ck.pid, ck.tier)
-    for r in (r1_sequential_validate, r3_sparse, r4_context_offset):
+    for r in (r1_sequential_validate, r3_sparse, r4_context_offset, r7_reset_keeps_extent):
         sub.guard(r, sub, cx)
     n = 0
     for o in sub.obligations:
-        if str(o[1]).endswith('.validate'):
+        if str(o[1]).endswith(('.validate', '.reset')):
             ck.obligations.append(('R7',) + tuple(o[1:]))
             n += 1
     for f in sub.findings:
-        if f.construct.endswith('.validate'):
+        # ... and the window validate() tests is the configured one for the life of the block: reset() does not move it
+        if f.construct.endswith('.validate') or (f.construct.endswith('.reset') and f.detail.startswith('reset-moves-block')):
             ck.finding('R7', f.construct, f.detail, f.loc, f.message + ' — a request for cells that do not exist passes the range guard instead of getting exception 02')
     for b in getattr(sub, 'broken', []):
         ck.broken.append(b)
@@ -418,6 +419,8 @@ def run(ck, tier):
     from .c10 import r12_do_exception_contract
     ck.guard(r12_do_exception_contract, ck, cx, 'R11')
     from ..share import import_findings as _imp3
+    ck.rule('R13', 'exception 01 is answered in the name of the function code that was received: IllegalFunctionRequest is built from the first PDU byte (shared with C01 R4)')
+    _imp3(ck, 'C01', 'R13', ('R4',), 'the exception response carries another function code than the request', detail_prefixes=('illegal-function-code-source',))
     ck.rule('R12', 'the RTU frame length oracle sizes every request the spec allows a client to send, up to the 256-byte ADU limit (shared with C03 R3)')
     _imp3(ck, 'C03', 'R12', ('R3',), 'an over-long or boundary-size request is cut wrongly, fails its CRC and gets no answer instead of the exception response', detail_prefixes=('rtuFrameSize-shape', 'size-from-buffered-length', 'custom-size-override', 'fifo-size', 'mei-size-shape', 'base-size-shape'))
     return cx.idx
